@@ -8,6 +8,10 @@ HOOKS = {
     "add_only": True,
 }
 ENGINES = [
+    {"name": "sh", "path": "/verif/harness/src/bin/hplain.rs + /verif/checks/c19.py + /verif/lean/Model/Sh.lean",
+     "serves_properties": ["C19"],
+     "kind_free_text": "Lean 4 proof over a hand-written renderer model and sh-lexer specification; differential run of the "
+                       "real Exec/Pipeline Debug output vs the compiled Lean model; real /bin/sh as oracle"},
     {"name": "win", "path": "/verif/winx + /verif/checks/c20.py + /verif/lean/Model/WinArgv.lean",
      "serves_properties": ["C20"],
      "kind_free_text": "Lean 4 proof over a hand-written model; cfg(windows) source text extracted from /repo on every run, "
@@ -31,5 +35,16 @@ CLAIMED = {
         "note": COMMON_NOTE + "The Microsoft parsing rules are transcribed from the published description; no Windows machine "
                 "runs CommandLineToArgvW here. argv[0] theorem assumes a representable program name.",
     },
+}
+CLAIMED["C19"] = {
+    "engine": "sh", "design_ref": "DESIGN.md section 6, C19",
+    "technique": "Lean 4 proof (fold invariants over the rendered text) + differential correspondence + /bin/sh oracle",
+    "text": "c19_roundtrip / c19_pipeline proved in Lean for every program name and argument vector over all Unicode scalars "
+            "(any count, empty arguments and every metacharacter included) and every pipeline length: the rendered text parses, "
+            "under a lexer model of the POSIX sh fragment, to exactly the original stages. The renderer model is compared "
+            "string-for-string with format!(\"{:?}\") of the real Exec/Pipeline on every run, the real /bin/sh evaluates the "
+            "implementation's own text (direct oracle), and the lexer model itself is validated against /bin/sh.",
+    "note": COMMON_NOTE + "Sh.parse is a model of sh (validated against dash, not proved); the theorem assumes the program name is "
+            "not an sh reserved word (known finding C19:command-is-sh-reserved-word); env=None rendering only.",
 }
 NOT_CLAIMED = {}
